@@ -70,7 +70,7 @@ def check_case(ctx, v, params, kind, delivery, origin):
 
 def run_shard(ctx):
     conf = TIERS[ctx.tier]
-    for v, params, kind, delivery, origin in T.iter_cases(ctx, conf):
+    for v, params, kind, delivery, origin in T.iter_cases(ctx, conf, validator_faults=True):
         check_case(ctx, v, params, kind, delivery, origin)
 
 
